@@ -15,7 +15,7 @@ import (
 // invariant must hold again on the object that goes back to the pool.
 
 func vPCInv(pc *PrintCtx) bool {
-	return pc.off == 0 && pc.lastRead == opInvalid && pc.prefix == "" && !pc.inGroupedMode && !pc.skipSep && pc.noQuoted && pc.dedupeAttrs
+	return pc.off == 0 && pc.lastRead == opInvalid && pc.prefix == "" && !pc.inGroupedMode && pc.noQuoted && pc.dedupeAttrs
 }
 
 func vHavocPC() *PrintCtx {
